@@ -83,13 +83,13 @@ def negotiate (req : Nat × Nat) : R (Nat × Nat) :=
 
 def isWordChar (b : Byte) : Bool := isAlnum b || b == 0x5F
 
-/-- `Status.parse`: `STATUS_RE`; group 2 is what follows the (greedy) whitespace run -/
+/-- `Status.parse`: `STATUS_RE` = `^([1-5]\d{2})(?:\s+([\s\w]*))?\Z`; group 2 is what follows the (greedy) whitespace run -/
 def parseStatus (s : Bytes) : R (Nat × Bytes) :=
   match s with
   | d1 :: d2 :: d3 :: rest =>
     if !(0x31 ≤ d1 && d1 ≤ 0x35 && isDigit d2 && isDigit d3) then .error .invalidLine
     else match rest with
-      | [] => .error .invalidLine
+      | [] => .ok (decNat [d1, d2, d3], [])       -- the reason phrase may be missing altogether (the F51 repair)
       | w :: _ =>
         if !isPySpace w then .error .invalidLine
         else if !rest.all (fun b => isPySpace b || isWordChar b) then .error .invalidLine
